@@ -60,6 +60,13 @@ def _exc_table() -> Dict[str, Any]:
     return EXC_TABLE
 
 
+class PlainThing:
+    """A plain class used as a parameter annotation (pydantic cannot build a schema for it)."""
+
+    def __init__(self, pos: int = 0) -> None:
+        self.pos = pos
+
+
 def msg_spec(**kw: Any) -> Dict[str, Any]:
     d = dict(MSG_DEFAULT)
     d.update(kw)
@@ -263,7 +270,7 @@ class RecvWorld(World):
                     labels=labels,
                     labels_types=None,
                     args=[i],
-                    kwargs={},
+                    kwargs={"cur": {"pos": i}, "n": str(i)} if m.get("task_kind") == "annot" else {},
                 )
                 data = broker.formatter.dumps(tm).message
             if m["ack"] is None:
@@ -293,6 +300,8 @@ class RecvWorld(World):
         self.listen_task = self.loop.create_task(self.receiver.listen(self.finish_event))
 
     def task_name_for(self, i: int) -> str:
+        if self.msgs[i].get("task_kind") == "annot":
+            return "t_annot"
         return "t_sync" if self.msgs[i]["flavour"] == "sync" else "t_async"
 
     def _finish_body(self, i: int, NoResultError: Any) -> Any:
@@ -337,10 +346,16 @@ class RecvWorld(World):
             world.emit("START", i)
             return world._finish_body(i, NoResultError)
 
+        async def t_annot(i, cur: PlainThing = None, n: int = 0):  # type: ignore[assignment]  # noqa: ANN001
+            # same body as t_async; the annotated parameters exercise argument parsing on the way in
+            return await t_async(i)
+
         t_async.__module__ = "mc.recv_world"
         t_sync.__module__ = "mc.recv_world"
+        t_annot.__module__ = "mc.recv_world"
         broker.register_task(t_async, task_name="t_async")
         broker.register_task(t_sync, task_name="t_sync")
+        broker.register_task(t_annot, task_name="t_annot")
 
     def _install_middlewares(self, broker: Any, TaskiqMiddleware: Any) -> None:
         world = self
@@ -572,6 +587,11 @@ class RecvWorld(World):
                 self.note_loop_error(ctx, exc)
             self.loop.errors.clear()
         # completion: nothing in processing -> every taken valid message has started
+        # a valid message whose processing ended without its task function ever being invoked
+        for k in self.cb_done:
+            if self.msgs[k]["kind"] == "valid" and k not in self.started and not self.sc.get("mws") and k not in getattr(self, "_nx_flagged", set()):
+                self.__dict__.setdefault("_nx_flagged", set()).add(k)
+                self.flag("C01:processed-without-execution", f"processing of message {k} ended but its task function was never invoked: {self.per[k]}")
         if not self.cb_open:
             for k in self.taken:
                 if self.msgs[k]["kind"] == "valid" and k not in self.started and k not in self.cb_done:
